@@ -3,6 +3,7 @@ import PqlModel.Props.C12Fuel
 import PqlModel.Props.C13Exact
 import PqlModel.Props.C10SpanIR
 import PqlModel.Props.C11WalkIR
+import PqlModel.Props.C12NoPanicIR
 #print axioms Pql.C12.C12_scan_progress
 #print axioms Pql.C12.C12_scan_length_le
 #print axioms Pql.C12.C12_split_shorter
@@ -14,3 +15,27 @@ import PqlModel.Props.C11WalkIR
 #print axioms Pql.C13.C13_exact_source
 #print axioms Pql.AstIR.C12_asQualified_ir
 #print axioms Pql.AstIR.C11_walk_ir
+#print axioms Pql.NoPanic.C12_parse_ir_no_panic
+#print axioms Pql.NoPanic.C12_parse_callees_ir_no_panic
+#print axioms Pql.NoPanic.C12_parse_ir_nonvacuous
+#print axioms Pql.NoPanic.C12_split_ir_no_panic
+#print axioms Pql.NoPanic.C12_numberOrDot_ir_no_panic
+#print axioms Pql.NoPanic.C12_split_ir_needs_scan
+#print axioms Pql.NoPanic.C12_split_ir_nonvacuous
+#print axioms Pql.NoPanic.C12_walk_ir_no_panic
+#print axioms Pql.NoPanic.C12_hasJoinTerms_ir_no_panic
+#print axioms Pql.NoPanic.C12_walk_ir_needs_parse
+#print axioms Pql.NoPanic.C12_walk_ir_nonvacuous
+#print axioms Pql.NoPanic.C12_span_ir_no_panic
+#print axioms Pql.NoPanic.C12_span_ir_needs_parse
+#print axioms Pql.NoPanic.C12_linecol_ir_no_panic
+#print axioms Pql.NoPanic.C12_linecol_ir_needs_inside
+#print axioms Pql.NoPanic.C12_compile_ir_no_panic
+#print axioms Pql.NoPanic.C12_compile_layers_ir_no_panic
+#print axioms Pql.NoPanic.C12_compile_leaves_ir_no_panic
+#print axioms Pql.NoPanic.C12_compile_layers_need_parse
+#print axioms Pql.NoPanic.C12_compile_ir_nonvacuous
+#print axioms Pql.NoPanic.C12_compile_layers_nonvacuous
+#print axioms Pql.NoPanic.C12_cli_ir_no_panic
+#print axioms Pql.NoPanic.C12_cli_ir_nonvacuous
+#print axioms Pql.NoPanic.C12_translated_code_never_panics
